@@ -123,6 +123,7 @@ type c17Build struct {
 type c17Case struct {
 	K      string     `json:"k"`
 	Sent   string     `json:"sent"`
+	SentP  [][]any    `json:"sentp"` // a long stream as pieces: ["l",hex] | ["gd",a,b,n] | ["rep",byte,n]
 	Evs    [][2]int   `json:"evs"`
 	Addr   string     `json:"addr"` // hex
 	DlFail bool       `json:"dlfail"`
@@ -227,8 +228,28 @@ type c17TCPRun struct {
 	msg    string
 }
 
+func c17Sent(c c17Case) []byte {
+	if len(c.SentP) == 0 {
+		return vUnhex(c.Sent)
+	}
+	var out []byte
+	for _, q := range c.SentP {
+		switch q[0].(string) {
+		case "l":
+			out = append(out, vUnhex(q[1].(string))...)
+		case "gd":
+			out = append(out, vGenData(uint64(q[1].(float64)), uint64(q[2].(float64)), int(q[3].(float64)))...)
+		case "rep":
+			out = append(out, bytes.Repeat([]byte{byte(q[1].(float64))}, int(q[2].(float64)))...)
+		default:
+			panic("c17: unknown stream piece")
+		}
+	}
+	return out
+}
+
 func c17TCPStart(c c17Case) *c17TCPRun {
-	sent := vUnhex(c.Sent)
+	sent := c17Sent(c)
 	st := &c17Stream{dlFail: c.DlFail}
 	off := 0
 	for _, e := range c.Evs {
